@@ -7,6 +7,7 @@ package markup
 
 //@ func NewParser(root, timingInfo)
 //@   requires root != nil && timingInfo != nil
+//@   ensures fresh(result) && wfParser(result)
 //@   ensures [C14] #og-len result != nil && implies(err == nil && ogParser != nil, len(result.accessors) == 3)
 //@   ensures [C14] #og-first implies(err == nil && ogParser != nil, result.accessors[0] == ogParser)
 //@   ensures [C14] #og-second implies(err == nil && ogParser != nil, typeis(result.accessors[1], *schemaorg.Parser))
